@@ -716,6 +716,10 @@ pub struct HonestPlan {
     pub midp: u64,
     /// false = reference responder (own keys, generated midpoint), true = the real Server behind a relay
     pub real_server: bool,
+    /// all requests of a multi-request run are answered from ONE batch (what a real server does when they
+    /// arrive together: same SREP and signature for all of them); false = one batch per request
+    #[serde(default)]
+    pub same_batch: bool,
 }
 
 fn check_honest(ctx: &mut Ctx, p: &HonestPlan) -> Res {
@@ -745,6 +749,43 @@ fn check_honest(ctx: &mut Ctx, p: &HonestPlan) -> Res {
     let lab_err: RefCell<Option<String>> = RefCell::new(None);
     let run = run_client(&args, |reqs| {
         let mut out = vec![];
+        if p.same_batch && reqs.len() >= 2 {
+            // one batch: fillers up to `index`, then all of the client's requests, then fillers up to `batch`
+            let total = (batch.max(index + reqs.len())).min(64).max(reqs.len());
+            let first = index.min(total - reqs.len());
+            let mut all: Vec<Vec<u8>> = vec![];
+            for k in 0..total {
+                if k >= first && k < first + reqs.len() {
+                    all.push(reqs[k - first].clone());
+                } else {
+                    all.push(filler_request(pr, 7_000 + k as u32));
+                }
+            }
+            match lab.as_mut() {
+                None => {
+                    let parts = ref_resp.respond_batch(pr, &all, p.midp);
+                    for k in 0..reqs.len() {
+                        out.push(parts[first + k].assemble());
+                    }
+                }
+                Some(lab) => {
+                    let sends: Vec<(usize, Vec<u8>)> = all.iter().enumerate().map(|(k, b)| (k, b.clone())).collect();
+                    match lab.step(&sends, total) {
+                        Ok(res) => {
+                            for k in 0..reqs.len() {
+                                out.push(res.replies[first + k].first().cloned().unwrap_or_default());
+                            }
+                        }
+                        Err(StepErr::Panic(m)) | Err(StepErr::Wedged(m)) => {
+                            *lab_err.borrow_mut() = Some(m);
+                            out = vec![vec![]; reqs.len()];
+                        }
+                    }
+                }
+            }
+            *delivered.borrow_mut() = out.clone();
+            return out.into_iter().map(|d| vec![d]).collect();
+        }
         for r in reqs {
             let d = match lab.as_mut() {
                 None => honest_parts(&ref_resp, pr, r, batch as u8, index as u8, p.midp).assemble(),
@@ -808,7 +849,7 @@ fn check_honest(ctx: &mut Ctx, p: &HonestPlan) -> Res {
                 };
                 expected.push((s, ns));
                 depth = info.path_len / pr.tree().width;
-                if info.index as usize != index {
+                if !(p.same_batch && run.requests.len() >= 2) && info.index as usize != index {
                     return Err(viol("harness-batch-position", format!("request landed at index {} not {}", info.index, index)));
                 }
             }
@@ -822,7 +863,7 @@ fn check_honest(ctx: &mut Ctx, p: &HonestPlan) -> Res {
             }
         }
     }
-    let desc = format!("{} key={} mode={} nreq={} batch={} index={} peer={}", pr.name(), ["none", "hex", "base64"][(p.key % 3) as usize], p.mode % 4, nreq, batch, index, peer);
+    let desc = format!("{} key={} mode={} nreq={} batch={} index={} peer={} same_batch={}", pr.name(), ["none", "hex", "base64"][(p.key % 3) as usize], p.mode % 4, nreq, batch, index, peer, p.same_batch);
     if run.exit != Some(0) {
         return ctx.fail(
             format!("honest-response-rejected|{}|{}", pr.name(), if index == 0 && batch == 1 { "single" } else { "batched" }),
@@ -880,7 +921,7 @@ fn check_honest(ctx: &mut Ctx, p: &HonestPlan) -> Res {
 
 fn honest_strategy() -> impl Strategy<Value = HonestPlan> {
     (any::<bool>(), 0u8..3, prop_oneof![6 => Just(1u8), 2 => 2u8..=4, 1 => 5u8..=16, 1 => 17u8..=64], 0u8..4, batch_strategy(), prop::bool::weighted(0.4)).prop_flat_map(|(ietf, key, nreq, mode, (batch, index), real_server)| {
-        midp_strategy(ietf).prop_map(move |midp| HonestPlan { ietf, key, nreq, mode, batch, index, midp, real_server })
+        (midp_strategy(ietf), any::<bool>()).prop_map(move |(midp, same_batch)| HonestPlan { ietf, key, nreq, mode, batch, index, midp, real_server, same_batch })
     })
 }
 
@@ -905,13 +946,23 @@ pub fn run_c03(ctx: &mut Ctx) -> Vec<Violation> {
                         if t == Tier::Thorough && key == 2 && b > 8 {
                             continue;
                         }
-                        grid.push(HonestPlan { ietf, key, nreq: 1, mode: (b + i) % 4, batch: b, index: i, midp: if ietf { 1_750_000_000 } else { 1_750_000_000_999_999 }, real_server });
+                        grid.push(HonestPlan { ietf, key, nreq: 1, mode: (b + i) % 4, batch: b, index: i, midp: if ietf { 1_750_000_000 } else { 1_750_000_000_999_999 }, real_server, same_batch: false });
                     }
                 }
             }
         }
     }
     grid.dedup_by_key(|p| (p.ietf, p.key, p.batch, p.index, p.real_server));
+    // multi-request runs answered from one batch (same signature for all replies), both peers
+    for ietf in [false, true] {
+        for key in 0..3u8 {
+            for real_server in [false, true] {
+                for (nreq, batch, index) in [(2u8, 2u8, 0u8), (3, 8, 2), (5, 5, 0), (9, 16, 4), (16, 64, 40)] {
+                    grid.push(HonestPlan { ietf, key, nreq, mode: nreq % 3, batch, index, midp: if ietf { 1_760_000_000 } else { 1_760_000_000_000_001 }, real_server, same_batch: true });
+                }
+            }
+        }
+    }
     let v = run_enum(ctx, "grid", grid.len() as u64, |i| grid[i as usize].clone(), |ctx, p| check_honest(ctx, p));
     if v.is_empty() && ctx.shard == 0 {
         ctx.stats.exhaustive_spaces.push(format!("grid of {} plans: version x key option x peer x batch sizes {} x positions {}", grid.len(), t.pick("{1,2,3,5,9,17,33,64}", "1..=64"), t.pick("{first,last}", "all")));
